@@ -2,6 +2,7 @@ SPECIFICATION Spec
 CONSTANTS
   Levels = {0,1,2,3,4,5,6,7,8,9,10,11,12,128,255}
   WBits = {0,1,7,8,9,10,11,12,13,14,15,16,200,255}
+  SetLevels = {0,1,2,3,4,5,6,7,8,9,10,11,12,128,255}
 INVARIANTS HeaderValid DeclaredLeRequested DistLeDeclared Level0Stored FixedNoDynamic
   HuffOnlyNoMatches RleOnlyDist1 FilteredMinLen MatchingEnabled LevelClamp FormatAsRequested
 CHECK_DEADLOCK FALSE
